@@ -278,6 +278,8 @@ structure St where
   /-- `Buffer.document_before_paste` -/
   dbp : Option Buf
   prev : Handler
+  /-- `EmacsState.last_kill_word_killed`: the most recent kill-word put text on the clipboard -/
+  kwKilled : Bool := false
 deriving Repr, DecidableEq
 
 /-- the readline numeric argument as typed: nothing, `M--`, or `M-<digits>` / `M-- <digits>` -/
@@ -311,7 +313,7 @@ def pushKill (max : Nat) (r : Ring) (k : Kill) (acc : Acc) : Ring :=
   else r
 
 def applyKill (max : Nat) (s : St) (k : Kill) (acc : Acc) (h : Handler) : St :=
-  { buf := k.buf, ring := pushKill max s.ring k acc, dbp := touch s.buf s.dbp k.buf, prev := h }
+  { s with buf := k.buf, ring := pushKill max s.ring k acc, dbp := touch s.buf s.dbp k.buf, prev := h }
 
 /-- `Buffer.paste_clipboard_data(data, paste_mode, count)` -/
 def pasteSt (s : St) (d : Clip) (mode : PasteMode) (count : Int) : St :=
@@ -327,7 +329,7 @@ def yankPop (s : St) : St :=
   | none => { s with prev := .other }
   | some d =>
     let r := rotate s.ring
-    { buf := pasteBuf d (getData r) .emacs 1, ring := r, dbp := some d, prev := .other }
+    { s with buf := pasteBuf d (getData r) .emacs 1, ring := r, dbp := some d, prev := .other }
 
 /-- `Document.cut_selection` for an Emacs (CHARACTERS, upper bound excluded) selection
     between `a` and `b`: remaining document and the cut text -/
@@ -361,7 +363,10 @@ def step (reSpace : Char → Bool) (max : Nat) (s : St) (arg : Arg) (cmd : Cmd) 
   | .killLine => applyKill max s (killLineK s.buf n) .no .other
   | .lineDiscard => applyKill max s (lineDiscardK s.buf) .no .other
   | .killWord =>
-    applyKill max s (killWordK reSpace s.buf n) (if isRep .killWord then .fwd else .no) .killWord
+    -- a repeated kill-word appends to the previous kill only when the previous kill-word killed
+    let k := killWordK reSpace s.buf n
+    { applyKill max s k (if isRep .killWord ∧ s.kwKilled then .fwd else .no) .killWord with
+      kwKilled := k.push }
   | .wordRubout =>
     applyKill max s (ruboutK reSpace s.buf n true) (if isRep .rubout then .bwd else .no) .rubout
   | .backKillWord =>
@@ -391,7 +396,8 @@ def step (reSpace : Char → Bool) (max : Nat) (s : St) (arg : Arg) (cmd : Cmd) 
       let b2 := setCursor b1 b
       let (b3, cut) := cutRegion s.buf.text b1.cur b2.cur
       let bEnd := if kill then b3 else b2
-      { buf := bEnd
+      { s with
+        buf := bEnd
         ring := setText max s.ring cut
         dbp := if b1 = s.buf ∧ b2 = b1 ∧ bEnd = b2 then s.dbp else none
         prev := .other }
